@@ -424,7 +424,8 @@ class Exec:
             j = z3.Int(fresh_name('j'))
             st.assume(z3.ForAll([j], Implies(And(0 <= j, j < n), Not(z3.substitute(cond, (j0, j))))))
         self.use('axiom:[f(x) for x in xs] has len(xs) elements, the j-th being f(xs[j]); it raises iff some element raises')
-        return SV('lazylist', None, n=n, at=lambda st2, j: at2(st2, j)[0])
+        # src / comp / env: what was iterated, the comprehension node and its closure (theories that view the result as a mapped list)
+        return SV('lazylist', None, n=n, at=lambda st2, j: at2(st2, j)[0], src=it, comp=e, env=closure_env)
 
     def e_DictComp(self, st, e):
         r = self._dispatch('dictcomp', st, e)
